@@ -28,6 +28,7 @@ class Scope:
 
     def add_label(self, label: str, value: Address) -> None:
         self.labels[label] = value.logical_value
+        self.pending.discard(label)
         self.add_symbol(label, value.logical_value)
 
     def get_labels(self) -> ItemsView[str, int]:
@@ -64,11 +65,13 @@ class Scope:
             return self.table
 
     def value_for(self, symbol: str) -> int | BlockAstNode | None:
+        # a name this scope (re)defines later has no value yet, even if an earlier definition left one behind:
+        # sizing an operand with the old value and emitting it with the new one would shift every later address.
+        if symbol in self.pending:
+            raise SymbolNotDefined(symbol)
         if self.parent:
             if symbol in self.symbols or symbol in self.code_symbols:
                 return self[symbol]
-            elif symbol in self.pending:
-                raise SymbolNotDefined(symbol)
             else:
                 return self.parent.value_for(symbol)
         else:
